@@ -291,3 +291,67 @@ def misread(den, sem):
                         out.append(("per-cell-importance", w, (part, i, str(v), sem["cells"][i]["importance"][part])))
                         break
     return out
+
+
+# --------------------------------------------------------------------------- dangling references, from the Spec's denotation
+def den_dangling(den):
+    """references of the file (as the independent reader denotes it) that point at nothing: list of (kind, where).
+    cell->surface, cell->complement, cell->material, cell->universe (fill), cell->transform (trcl, fill transform),
+    surface->transform, surface->periodic, MT->material"""
+    out = []
+    S = {s["number"] for s in den["surfaces"] if s["number"] is not None}
+    C = {c["number"] for c in den["cells"] if c["number"] is not None}
+    M, T = set(), set()
+    U = {0}
+    for d in den["data"]:
+        name = d["name"].lower().lstrip("*")
+        if re.fullmatch(r"m\d+", name):
+            M.add(int(name[1:]))
+        elif re.fullmatch(r"tr\d+", name):
+            T.add(int(name[2:]))
+        elif name == "u":
+            for v in d["entries"]:
+                q = _q(v)
+                if isinstance(q, Fraction) and q.denominator == 1:
+                    U.add(abs(int(q)))
+    for c in den["cells"]:
+        for key, vals in c["params"]:
+            if key.lower() == "u" and vals:
+                q = _q(vals[0])
+                if isinstance(q, Fraction) and q.denominator == 1:
+                    U.add(abs(int(q)))
+    for i, c in enumerate(den["cells"]):
+        if c["like"] or c["number"] is None:
+            continue
+        w = f"cell[{i}]#{c['number']}"
+        if c["material"] is not None and c["material"] > 0 and c["material"] not in M:
+            out.append(("cell-material", w, c["material"]))
+        if not any(x[-1:].isalpha() for x in c["geometry"]):
+            for n, side, is_cell in _den_leaves(c["geometry"]):
+                if is_cell and n not in C:
+                    out.append(("cell-complement", w, n))
+                elif not is_cell and n not in S:
+                    out.append(("cell-surface", w, n))
+        for key, vals in c["params"]:
+            k = key.lower().lstrip("*")
+            qs = [_q(v) for v in vals]
+            if k == "trcl" and len(qs) == 1 and isinstance(qs[0], Fraction) and qs[0].denominator == 1 and int(qs[0]) > 0:
+                if int(qs[0]) not in T:
+                    out.append(("cell-transform", w, int(qs[0])))
+            if k == "fill" and qs and isinstance(qs[0], Fraction) and qs[0].denominator == 1 and (len(qs) == 1 or qs[1] == "("):
+                if abs(int(qs[0])) not in U:
+                    out.append(("cell-fill-universe", w, int(qs[0])))
+                if len(qs) == 4 and qs[1] == "(" and qs[3] == ")" and isinstance(qs[2], Fraction) and qs[2].denominator == 1 and int(qs[2]) > 0 and int(qs[2]) not in T:
+                    out.append(("fill-transform", w, int(qs[2])))
+    for i, s in enumerate(den["surfaces"]):
+        w = f"surface[{i}]#{s['number']}"
+        p = s["pointer"]
+        if isinstance(p, int) and p > 0 and p not in T:
+            out.append(("surface-transform", w, p))
+        if isinstance(p, int) and p < 0 and -p not in S:
+            out.append(("surface-periodic", w, -p))
+    for d in den["data"]:
+        name = d["name"].lower().lstrip("*")
+        if re.fullmatch(r"mt\d+", name) and int(name[2:]) not in M:
+            out.append(("mt-material", "data:" + name, int(name[2:])))
+    return out
